@@ -291,9 +291,10 @@ def run(F, chk):
     chk.floor(R3, 5)
 
     # ---------------------------------------------------------------- R16.4 (= C15 R15.1 on the same facts)
-    chk.share(F, "c15", ["R15.1"], "R16.4",
+    chk.share(F, "c15", ["R15.1", "R15.5"], "R16.4",
               "a truncated file leaves references half read or pointing at blocks that were never read: every block lookup on the "
-              "load / query / save paths is tested before it is dereferenced")
+              "load / query / save paths is tested before it is dereferenced, and an index into a block's array is tested against "
+              "that array (not against a sibling list that a cut can leave longer)")
     chk.floor("R16.4", 150)
 
     # ---------------------------------------------------------------- R16.6
